@@ -39,6 +39,11 @@ fn check_new(i: u64, acc: &mut Acc) {
         if shown != format!("{h:02}:{m:02}") {
             return acc.fail("new", format!("new {h} {m}"), format!("Display of new({h},{m}) = {shown:?}"));
         }
+        // formatter flags (width, alignment, fill, zero flag) may pad the text but never change it
+        let padded = [format!("{t:>8}"), format!("{t:<6}"), format!("{t:5}"), format!("{t:^9}"), format!("{t:*>7}"), format!("{t:08}"), format!("{t:1}")];
+        if let Some(p) = padded.iter().find(|p| !p.contains(&shown) || p.trim_matches(|c| c == ' ' || c == '*' || c == '0').len() > shown.len()) {
+            return acc.fail("new", format!("new {h} {m}"), format!("new({h},{m}) printed with a width / alignment flag gives {p:?}, which does not contain the zero-padded {shown:?}"));
+        }
         let conv: Result<NaiveTime, ()> = t.try_into();
         let exp_conv = NaiveTime::from_hms_opt(h.into(), m.into(), 0).filter(|_| h < 24);
         if conv.ok() != exp_conv {
@@ -137,7 +142,19 @@ fn check_naive(i: u64, acc: &mut Acc) {
     acc.case(secs % 60 != 0 || secs % 3600 == 0);
     let back: Result<NaiveTime, ()> = t.try_into();
     if u32::from(t.mins_from_midnight()) != secs / 60 || back != Ok(nt.with_second(0).unwrap()) || u32::from(t.hour()) != secs / 3600 || u32::from(t.minute()) != secs / 60 % 60 {
-        acc.fail("naive", format!("naive {secs}"), format!("From<NaiveTime>({nt}) = {t}, back = {back:?}"));
+        return acc.fail("naive", format!("naive {secs}"), format!("From<NaiveTime>({nt}) = {t}, back = {back:?}"));
+    }
+    // fractions of a second, and chrono's representation of a leap second (second 59 with
+    // 1e9..2e9 nanoseconds), belong to the same minute
+    for nanos in [1u32, 999_999_999, 1_000_000_000, 1_999_999_999] {
+        if nanos >= 1_000_000_000 && secs % 60 != 59 {
+            continue;
+        }
+        let Some(fine) = NaiveTime::from_num_seconds_from_midnight_opt(secs, nanos) else { continue };
+        let tf: ExtendedTime = fine.into();
+        if tf != t {
+            return acc.fail("naive", format!("naive {secs}"), format!("From<NaiveTime>({fine:?}) = {tf}, but {nt} (same minute) gives {t}"));
+        }
     }
 }
 
@@ -154,12 +171,12 @@ fn consts(_i: u64, acc: &mut Acc) {
 fn extra(_tier: Tier, _seed: u64) -> Vec<SubOutcome> {
     let n_valid = (MAX + 1) as u64;
     vec![
-        par_enumerate("new", "all (hour, minute) in u8 x u8: new/accessors/Display/TryInto<NaiveTime>; non-trivial = accepted pair or a pair next to the 48:00 / :60 limits", 65536, check_new),
+        par_enumerate("new", "all (hour, minute) in u8 x u8: new/accessors/Display (also under width, alignment, fill and zero flags)/TryInto<NaiveTime>; non-trivial = accepted pair or a pair next to the 48:00 / :60 limits", 65536, check_new),
         par_enumerate("from_mins", "all u16 minute counts; non-trivial = within 00:00..49:00", 65536, check_from_mins),
         par_enumerate("add_minutes", "all 2881 valid times x all i16 offsets vs integer addition; non-trivial = result or operand on/next to 00:00, 24:00, 48:00 or just outside the range", n_valid << 16, check_add_minutes),
         par_enumerate("add_hours", "all 2881 valid times x all i8 offsets vs integer addition; non-trivial = boundary operand/result or result within one hour outside the range", n_valid << 8, check_add_hours),
         par_enumerate("order", "all ordered pairs of valid times: Ord/PartialOrd/Eq vs minute ordering; non-trivial = within one hour of each other or hour/minute components disagreeing in order", n_valid * n_valid, check_order),
-        par_enumerate("naive", "all 86400 seconds of a day: From<NaiveTime> then TryInto<NaiveTime>; non-trivial = non-zero seconds or full hour", 86400, check_naive),
+        par_enumerate("naive", "all 86400 seconds of a day, each also with 1 ns, 999 999 999 ns and (second 59) chrono's leap-second representation: From<NaiveTime> then TryInto<NaiveTime>; non-trivial = non-zero seconds or full hour", 86400, check_naive),
         par_enumerate("consts", "the three public constants", 1, consts),
     ]
 }
